@@ -1263,7 +1263,11 @@ namespace bluetoe {
         {
             state.pairing_algorithm( this->legacy_select_pairing_algorithm( io_capability, oob_data_flag, auth_req, this->has_oob_data_for_remote_device() ) );
 
-            this->create_pairing_response( output, out_size, this->lesc_local_io_caps() );
+            // legacy pairing: the OOB data flag has to reflect the OOB data used by legacy_select_pairing_algorithm()
+            io_capabilities_t local_io_caps = this->legacy_local_io_caps();
+            local_io_caps[ 2 ] |= static_cast< std::uint8_t >( authentication_requirements_flags::secure_connections );
+
+            this->create_pairing_response( output, out_size, local_io_caps );
 
             const details::uint128_t srand    = security_functions().create_srand();
             const details::uint128_t p1       = this->legacy_c1_p1( input, output, state.remote_address(), security_functions().local_address() );
